@@ -88,6 +88,11 @@ func judgeDangling(run *vc.Run, c *danglingCase, explain bool) {
 		}
 		say("oracle: rejected as required")
 	case "accepted":
+		if c.mut.Benign {
+			run.Count("benign_mutants_accepted", 1)
+			say("oracle: accepted (nothing is missing in this mutant: fine)")
+			break
+		}
 		run.Violation("dangling-accepted:"+c.mut.Class,
 			fmt.Sprintf("design accepted although %s refers to %q which does not exist", c.mut.Site, c.mut.Name), w)
 		say("oracle: ACCEPTED although %q does not exist: violation", c.mut.Name)
@@ -126,7 +131,25 @@ func runDangling(run *vc.Run, dir string, n int) {
 				// gen's grpc profile does not assign field tags yet (goa rejects its designs): own small gRPC designs
 				base, mutant = chaos.GRPCSpec(run.Rand(2, uint64(i)), id), chaos.GRPCSpec(run.Rand(2, uint64(i)), id)
 			}
+			if i%8 == 7 {
+				// half of the Meta mutants decorate a fixed nested design (types holding types, used as payload and result)
+				base, mutant = chaos.NestedSpec(run.Rand(2, uint64(i)), id), chaos.NestedSpec(run.Rand(2, uint64(i)), id)
+			}
 			m := chaos.PickMutation(run.Rand(3, uint64(i)), chaos.Mutations(mutant))
+			if i%4 == 3 {
+				// every fourth mutant decorates the design with documented Meta keys instead (nothing goes missing:
+				// accepted or rejected, never a crash)
+				if mms := chaos.MetaMutations(mutant); len(mms) > 0 {
+					// the classes in turn, so that every key is tried several times even in the quick tier
+					cs := chaos.Classes(mms)
+					want := cs[(i/8)%len(cs)]
+					for _, mm := range mms {
+						if mm.Class == want {
+							m = mm
+						}
+					}
+				}
+			}
 			if m == nil {
 				continue
 			}
@@ -204,6 +227,6 @@ func replayDangling(run *vc.Run, dir string, w *chaosWitness) {
 			name = n
 		}
 	}
-	c := &danglingCase{profile: w.Profile, mut: &chaos.Mutation{Class: w.Class, Site: w.Site, Name: name}, base: b.Designs[0], mutant: b.Designs[1]}
+	c := &danglingCase{profile: w.Profile, mut: &chaos.Mutation{Class: w.Class, Site: w.Site, Name: name, Benign: strings.HasPrefix(w.Class, "meta-key-only:")}, base: b.Designs[0], mutant: b.Designs[1]}
 	judgeDangling(run, c, true)
 }
